@@ -220,8 +220,8 @@ def gen_args(rng, sig, jc_keys):
     keys = list(names[:nreq]) + [n for n in names[nreq:] if rng.random() < 0.5]
     if kw:
         for _ in range(rng.randint(0 if keys else 1, 3)):
-            # ("self" cannot be passed by keyword to `_Method.__call__(self, *args, **kwargs)`: odd stream only)
-            k = rng.choice(["k", "not an identifier", "é", "", "a b", "1", "zz", "\U0001f600", "cls", "method", "id"])
+            # ("self" is an ordinary keyword: `_Method.__call__(*args, **kwargs)` takes its receiver positionally)
+            k = rng.choice(["k", "not an identifier", "é", "", "a b", "1", "zz", "\U0001f600", "cls", "method", "id", "self"])
             if k not in names:
                 keys.append(k)
     if not keys:
